@@ -34,7 +34,7 @@ StepClauses(e) ==
   LET pure == PureHist(e.parent) IN
   CASE e.op = "add"      -> AddClauses(A(e), e.pre, e.kid, e.sym, e.fwd, pure, e.res, e.post)
     [] e.op = "remove"   -> RemoveClauses(A(e), e.pre, e.idx, e.res, e.post)
-    [] e.op = "replace"  -> ReplaceClauses(A(e), e.pre, e.idx, e.kid, e.sym, e.res, e.post)
+    [] e.op \in {"replace", "replacep"} -> ReplaceClauses(A(e), e.pre, e.idx, e.kid, e.sym, e.res, e.post)
     \* an element under test that could only be built without a required (namespaced) attribute must be
     \* refused by to_string whatever its children: the acceptance clauses are not exercised on it
     [] e.op = "tostring" -> ToStringClauses(A(e), e.pre, e.ic, pure /\ ~e.lenient, e.res, e.post, e.outw)
